@@ -2,6 +2,7 @@ package main
 
 import (
 	"fmt"
+	"sort"
 	"strings"
 
 	"golang.org/x/tools/go/ssa"
@@ -200,49 +201,88 @@ func ruleLineSanitised(c *Ctx) {
 	if !c.anchor(rid, fn, "proto.(*Message).RESPBytes") {
 		return
 	}
-	buf := outputBuffer(fn)
-	if buf == nil {
-		c.undecided(rid, "Message.RESPBytes/buffer", c.P.pos(fn.Pos()), "no local bytes.Buffer output found: the serializer does not build its frame in a fresh local buffer (a shared or pooled buffer can be overwritten before the reply is written)")
+	m := serializerModel(c.P, fn, tt)
+	if m.Mode == "" {
+		c.undecided(rid, "Message.RESPBytes/buffer", c.P.pos(fn.Pos()), "no output accumulator found: the serializer does not build its frame in a fresh local buffer or append chain (a shared or pooled buffer can be overwritten before the reply is written): "+m.Why)
 		return
 	}
-	tokOf := writeTokens(fn, buf, tt)
-	n := 0
-	allInstrs(fn, func(ins ssa.Instruction) {
-		for _, t := range tokOf(ins) {
+	typeField := fn.Params[0].Name() + ".Type"
+	type site struct {
+		ins  ssa.Instruction
+		good bool
+		msg  string
+	}
+	sites := map[ssa.Instruction]*site{}
+	for _, pth := range m.Paths {
+		line := false
+		for _, k := range feasibleTypes(pth.Facts, typeField, tt) {
+			if b, ok := tt.typeToByte[k]; ok && (b == '+' || b == '-' || b == ':') {
+				line = true
+			}
+		}
+		for _, t := range pth.Toks {
 			switch t.K {
 			case "San", "SanRune":
-				n++
-				c.ok(rid, fmt.Sprintf("Message.RESPBytes/line-payload#%d", n), c.P.instrPos(ins), "payload written through a proven CR/LF sanitiser")
+				if sites[t.Ins] == nil {
+					sites[t.Ins] = &site{ins: t.Ins, good: true, msg: "payload written through a proven CR/LF sanitiser"}
+				}
 			case "Unknown":
 				if strings.Contains(t.S, ".bytes") || strings.Contains(t.S, "msg") {
-					n++
-					c.bad(rid, fmt.Sprintf("Message.RESPBytes/line-payload#%d", n), c.P.instrPos(ins), "payload written through a function that is not a proven CR/LF sanitiser: "+t.S)
+					sites[t.Ins] = &site{ins: t.Ins, msg: "payload written through a function that is not a proven CR/LF sanitiser: " + t.S}
+				}
+			case "Payload":
+				// a raw payload write on a path some line type can take
+				if line {
+					sites[t.Ins] = &site{ins: t.Ins, msg: "the payload of a status/error/integer reply is written verbatim: a CR or LF in it ends the frame early and lets the rest be read as further replies"}
 				}
 			}
 		}
-	})
-	// the Payload tokens on line-type paths are reported by R04.d's grammar in non-strict mode as violations
-	// here: find raw payload writes whose dominating facts place them in a line-type case
-	allInstrs(fn, func(ins ssa.Instruction) {
-		for _, t := range tokOf(ins) {
-			if t.K != "Payload" {
-				continue
-			}
-			// which types can reach this block?
-			line := false
-			for _, k := range feasibleTypesAt(ins.Block(), fn, tt) {
-				if b, ok := tt.typeToByte[k]; ok && (b == '+' || b == '-' || b == ':') {
-					line = true
-				}
-			}
-			if line {
-				n++
-				c.bad(rid, fmt.Sprintf("Message.RESPBytes/line-payload#%d", n), c.P.instrPos(ins), "the payload of a status/error/integer reply is written verbatim: a CR or LF in it ends the frame early and lets the rest be read as further replies")
-			}
+	}
+	var order []*site
+	for _, st := range sites {
+		order = append(order, st)
+	}
+	sort.Slice(order, func(i, j int) bool { return order[i].ins.Pos() < order[j].ins.Pos() })
+	n := 0
+	for _, st := range order {
+		n++
+		key := fmt.Sprintf("Message.RESPBytes/line-payload#%d", n)
+		if st.good {
+			c.ok(rid, key, c.P.instrPos(st.ins), st.msg)
+		} else {
+			c.bad(rid, key, c.P.instrPos(st.ins), st.msg)
 		}
-	})
+	}
 	c.count("line-payload-writes", n)
 	c.floor("line-payload-writes", 1)
+}
+
+// feasibleTypes: the declared message types consistent with the type tests among facts.
+func feasibleTypes(facts []Atom, typeField string, tt typeTables) []int64 {
+	var out []int64
+	for _, k := range tt.consts {
+		ok := true
+		for _, at := range facts {
+			if at.Kind != "eq" {
+				continue
+			}
+			f, isT := canonField(at.X)
+			if !isT || f != typeField {
+				continue
+			}
+			cv, isC := constInt(at.Y)
+			if !isC {
+				continue
+			}
+			if at.Pos != (cv == k) {
+				ok = false
+			}
+		}
+		if ok {
+			out = append(out, k)
+		}
+	}
+	return out
 }
 
 // feasibleTypesAt: message types for which block b of the serializer is reachable, from dominating facts.
